@@ -399,6 +399,29 @@ def handle (line : String) : Out :=
     | some s =>
       let keep := (legalMoves s).filter fun r => Outcome.lostIn (d - 1) r.2
       ⟨"-", joinSp (keep.map fun r => s!"{r.1.toNat}:{(writeFen r.2).replace " " "_"}")⟩
+  | "matekeeph" =>
+    -- matekeeph <d> <nrec> <recorded fens with _>* <fen...> (spec only): the first moves that keep a forced mate in d
+    -- plies along lines that never enter a recorded position (recorded positions are draws for the search: C17);
+    -- positions are identified by placement, side, rights and en-passant square (what the hash reads)
+    let d := parts[1]!.toNat!
+    let nrec := parts[2]!.toNat!
+    let keyOf (s : State) : String := " ".intercalate (((writeFen s).splitOn " ").take 4)
+    let recs := ((parts.drop 3).take nrec).filterMap fun h => (parseFenM (h.replace "_" " ")).map keyOf
+    match parseFenM (rest (3 + nrec)) with
+    | Option.none => ⟨"-", "-"⟩
+    | some s =>
+      let isRec (q : State) : Bool := recs.contains (keyOf q)
+      -- mutual recursion on the remaining plies, written with one fuel argument
+      let rec li : Nat → State → Bool
+        | 0, q => Outcome.isMated q
+        | n+1, q =>
+          let ms := legalMoves q
+          if ms.isEmpty then q.isCheck
+          else ms.all fun r => !isRec r.2 && (match n with
+            | 0 => false
+            | m+1 => (legalMoves r.2).any fun r' => !isRec r'.2 && li m r'.2)
+      let keep := (legalMoves s).filter fun r => !isRec r.2 && li (d - 1) r.2
+      ⟨"-", joinSp (keep.map fun r => s!"{r.1.toNat}")⟩
   | "matecheck" =>
     -- matecheck <eval> <first raw> <fen...> (spec only): a winning terminal evaluation claims a forced
     -- mate; the ply bonus of the score bounds the distance when it is below 10 plies
